@@ -67,6 +67,22 @@ func checkLevelDetection(c *Ctx, r *Report) {
 					sawPattern = true
 					continue
 				}
+				// both tests moved into a helper of the package: its truth table must be match && !containsAny
+				if h := x.Call.StaticCallee(); h != nil && h.Pkg == fn.Pkg && len(h.Blocks) > 0 {
+					passesPrompt := false
+					for _, a := range x.Call.Args {
+						if sameParam(a, prompt) {
+							passesPrompt = true
+						}
+					}
+					if passesPrompt && levelMatchHelperOK(c, h, any) {
+						if !truth {
+							extra = append(extra, "a level is kept when the match helper says no")
+						}
+						sawPattern, sawNot = true, true
+						continue
+					}
+				}
 				extra = append(extra, "selection also depends on "+describeCall(c, x))
 			case *ssa.Extract:
 				// ok value of the map range iterator
@@ -170,4 +186,59 @@ func checkGetPromptShape(c *Ctx, r *Report) {
 	} else {
 		r.Bad(rule, construct, c.Pos(rs[0].Pos()), "what GetPrompt returns is not the prompt pattern's match in the bytes it has just read: the privilege level is then determined from something other than the device's current prompt")
 	}
+}
+
+// levelMatchHelperOK: h returns true exactly when the level's pattern matches the prompt and the prompt contains none
+// of the level's not-contains strings (decision table of the helper over the two tests).
+func levelMatchHelperOK(c *Ctx, h, any *ssa.Function) bool {
+	res := h.Signature.Results()
+	if res.Len() != 1 {
+		return false
+	}
+	isAtom := func(call *ssa.Call) bool {
+		if call.Call.StaticCallee() == any {
+			return true
+		}
+		o := CalleeObj(call)
+		return o != nil && o.Pkg() != nil && o.Pkg().Path() == "regexp" && strings.HasPrefix(o.Name(), "Match")
+	}
+	paths := EnumeratePaths(c, h, &dtConfig{IsAtomCall: isAtom})
+	if len(paths) == 0 {
+		return false
+	}
+	for _, p := range paths {
+		if p.Undecided != "" || len(p.Returns) != 1 {
+			return false
+		}
+		contains, match := "", ""
+		var matchKey, containsKey string
+		for k, v := range p.Assume {
+			switch {
+			case strings.Contains(k, "StringContainsAny(") && strings.Contains(k, "NotContains"):
+				contains, containsKey = v, k
+			case strings.Contains(k, ".Match") && strings.Contains(k, "patternRe"):
+				match, matchKey = v, k
+			}
+		}
+		_ = containsKey
+		ret := p.Returns[0]
+		switch {
+		case ret == "true":
+			if !(contains == "false" && match == "true") {
+				return false
+			}
+		case ret == "false":
+			if !(contains == "true" || match == "false") {
+				return false
+			}
+		case strings.Contains(ret, ".Match") && strings.Contains(ret, "patternRe") && (matchKey == "" || ret == matchKey):
+			// returns the pattern test itself: the not-contains test must have said no on this path
+			if contains != "false" {
+				return false
+			}
+		default:
+			return false
+		}
+	}
+	return true
 }
